@@ -156,7 +156,7 @@ func c18Mercator(c *core.Case) {
 		obs = append(obs, fmt.Sprintf("(%.10g, %.10g, %.17g)", p.X, p.Y, p.Alt))
 		wx, wy := ref.MercX(o.Lon()), ref.MercY(o.Lat())
 		tolX, tolY := c18Tol(o.Lat())
-		if math.Abs(math.Abs(p.X)-math.Abs(wx)) > tolX || (math.Abs(o.Lon()) < 180 && math.Abs(p.X-wx) > tolX) {
+		if math.Abs(p.X-wx) > tolX { // also at lon = +-180: X = R*lon keeps the sign of the longitude
 			c.Fail(cls("mercator-x", o), nil, "point %d: lon %v (alt %v) projects to X %v, spherical Mercator gives %v", i, o.Lon(), o.Alt(), p.X, wx)
 			return
 		}
